@@ -18,6 +18,7 @@ package proxy
 import (
 	"context"
 	"errors"
+	"io"
 	"net"
 	"net/http"
 	"net/url"
@@ -157,6 +158,16 @@ func (p Proxy) ServeHTTP(w http.ResponseWriter, r *http.Request) (int, error) {
 		if body != nil {
 			outreq.Body = body
 		}
+	}
+
+	// When the request body is streamed from the client while it is sent to
+	// the backend, an attempt can fail because the body cannot be read (the
+	// client went away, its chunked encoding is broken, it exceeds the size
+	// limit). Remember such an error: it is the client's, not the backend's.
+	var clientBody *bodyErrorRecorder
+	if _, buffered := outreq.Body.(*bufferedBody); !buffered && outreq.Body != nil {
+		clientBody = &bodyErrorRecorder{ReadCloser: outreq.Body}
+		outreq.Body = clientBody
 	}
 
 	// The keepRetrying function will return true if we should
@@ -306,6 +317,11 @@ func (p Proxy) ServeHTTP(w http.ResponseWriter, r *http.Request) (int, error) {
 		if backendErr == context.Canceled || outreq.Context().Err() == context.Canceled {
 			return CustomStatusContextCancelled, backendErr
 		}
+		if clientBody != nil && clientBody.err != nil {
+			// the request body could not be read (and the context may just
+			// not have been cancelled yet): nothing to hold against the backend
+			return http.StatusBadRequest, backendErr
+		}
 
 		// failover; remember this failure for some time if
 		// request failure counting is enabled
@@ -325,6 +341,21 @@ func (p Proxy) ServeHTTP(w http.ResponseWriter, r *http.Request) (int, error) {
 	}
 
 	return http.StatusBadGateway, backendErr
+}
+
+// bodyErrorRecorder remembers an error (other than io.EOF) that reading
+// the request body ended with.
+type bodyErrorRecorder struct {
+	io.ReadCloser
+	err error
+}
+
+func (b *bodyErrorRecorder) Read(p []byte) (int, error) {
+	n, err := b.ReadCloser.Read(p)
+	if err != nil && err != io.EOF {
+		b.err = err
+	}
+	return n, err
 }
 
 // match finds the best match for a proxy config based on r.
